@@ -29,6 +29,9 @@ type Decl struct {
 	S      string    `json:"s"`                // predecessor output type
 	Val    *V        `json:"val"`              // what the predecessor returns (Invoke)
 	Chunks []*V      `json:"chunks,omitempty"` // what it streams (Stream); empty = [Val]
+	// a second request served by the SAME compiled runnables (Invoke, then Stream with this one chunk): what the
+	// predecessor returns then; nil = Val again. The case has a second request iff some declaration has a Val2.
+	Val2 *V `json:"val2,omitempty"`
 	Maps   []Mapping `json:"maps"`             // empty = plain AddInput (no field mapping)
 }
 
@@ -43,6 +46,9 @@ type Case struct {
 	Decls   []Decl   `json:"decls"`
 	Statics []Static `json:"statics,omitempty"`
 	Mid     bool     `json:"mid,omitempty"` // the successor is a middle node, not END
+	// the middle node is a nested graph (Graph[T,T] around a stream-transparent identity node): the mapped input is
+	// built by the pre-node handler of a graph node
+	MidGraph bool `json:"mid_graph,omitempty"`
 	// a unit case (non-empty Unit): convertTo (through the verif hook) on the map Unit for type T,
 	// repeated; overlapping keys allowed (the Go map's iteration order then shows)
 	Unit []Static `json:"unit,omitempty"`
@@ -73,6 +79,31 @@ func (c *Case) expanded() *Case {
 	return &x
 }
 
+func (d *Decl) val2() *V {
+	if d.Val2 != nil {
+		return d.Val2
+	}
+	return d.Val
+}
+
+// is there a second request on the same compiled runnables
+func (c *Case) second() bool {
+	for i := range c.Decls {
+		if c.Decls[i].Val2 != nil {
+			return true
+		}
+	}
+	return false
+}
+
+func (c *Case) vals2() []*V {
+	out := make([]*V, len(c.Decls))
+	for i := range c.Decls {
+		out[i] = c.Decls[i].val2()
+	}
+	return out
+}
+
 func (d *Decl) chunks() []*V {
 	if len(d.Chunks) == 0 {
 		return []*V{d.Val}
@@ -85,26 +116,35 @@ func (d *Decl) chunks() []*V {
 // every top-level source / target type needs a static instantiation of the generic API
 type wfAPI interface {
 	AddLambdaNode(key string, lambda *compose.Lambda, opts ...compose.GraphAddNodeOpt) *compose.WorkflowNode
+	AddGraphNode(key string, graph compose.AnyGraph, opts ...compose.GraphAddNodeOpt) *compose.WorkflowNode
 	End() *compose.WorkflowNode
 }
 
+// reqs[r] = what the node produces in request r of the compiled runnable (one value, or the chunks it streams);
+// *cur = the request being served (requests are issued one after the other)
 type srcHandle interface {
-	lambda(vals []reflect.Value) *compose.Lambda
+	lambda(reqs [][]reflect.Value, cur *int) *compose.Lambda
 }
 type srcOf[S any] struct{}
 
-func (srcOf[S]) lambda(vals []reflect.Value) *compose.Lambda {
-	if len(vals) == 1 {
-		v, _ := vals[0].Interface().(S) // a nil interface value (S = any) stays the nil S
-		return compose.InvokableLambda(func(ctx context.Context, in Outer) (S, error) { return v, nil })
+func (srcOf[S]) lambda(reqs [][]reflect.Value, cur *int) *compose.Lambda {
+	arrs := make([][]S, len(reqs))
+	single := true
+	for r, vals := range reqs {
+		arrs[r] = make([]S, len(vals))
+		for i, v := range vals {
+			arrs[r][i], _ = v.Interface().(S) // a nil interface value (S = any) stays the nil S
+		}
+		if len(vals) != 1 {
+			single = false
+		}
 	}
-	arr := make([]S, len(vals))
-	for i, v := range vals {
-		arr[i], _ = v.Interface().(S)
+	if single {
+		return compose.InvokableLambda(func(ctx context.Context, in Outer) (S, error) { return arrs[*cur][0], nil })
 	}
 	return compose.StreamableLambda(func(ctx context.Context, in Outer) (*schema.StreamReader[S], error) {
-		cp := make([]S, len(arr))
-		copy(cp, arr)
+		cp := make([]S, len(arrs[*cur]))
+		copy(cp, arrs[*cur])
 		return schema.StreamReaderFromArray(cp), nil
 	})
 }
@@ -113,6 +153,9 @@ func (srcOf[S]) lambda(vals []reflect.Value) *compose.Lambda {
 type runFns struct {
 	invoke func(in Outer) (reflect.Value, error)
 	stream func(in Outer) ([]reflect.Value, error)
+	// the other two entries of the compiled runnable: the workflow's input arrives as a stream (one chunk)
+	collect   func(in Outer) (reflect.Value, error)
+	transform func(in Outer) ([]reflect.Value, error)
 }
 
 type tgtHandle interface {
@@ -120,14 +163,24 @@ type tgtHandle interface {
 	// type T whose output goes to END by a plain edge) instead of END itself
 	// inv: the middle node is an ordinary (invokable) node: in Stream execution the engine concatenates the
 	// converted chunks into one input value before it calls the node
-	build(mid, inv bool, add func(wf wfAPI, succ *compose.WorkflowNode)) (*runFns, error)
+	build(mid, inv, sub bool, add func(wf wfAPI, succ *compose.WorkflowNode)) (*runFns, error)
 }
 type tgtOf[T any] struct{}
 
-func (tgtOf[T]) build(mid, inv bool, add func(wf wfAPI, succ *compose.WorkflowNode)) (*runFns, error) {
+func (tgtOf[T]) build(mid, inv, sub bool, add func(wf wfAPI, succ *compose.WorkflowNode)) (*runFns, error) {
 	ctx := context.Background()
 	wf := compose.NewWorkflow[Outer, T]()
-	if mid && inv {
+	if mid && sub && !inv {
+		g := compose.NewGraph[T, T]()
+		_ = g.AddLambdaNode("id", compose.TransformableLambda(func(ctx context.Context, in *schema.StreamReader[T]) (*schema.StreamReader[T], error) {
+			return in, nil
+		}))
+		_ = g.AddEdge(compose.START, "id")
+		_ = g.AddEdge("id", compose.END)
+		succ := wf.AddGraphNode("mid", g)
+		add(wf, succ)
+		wf.End().AddInput("mid")
+	} else if mid && inv {
 		succ := wf.AddLambdaNode("mid", compose.InvokableLambda(func(ctx context.Context, in T) (T, error) {
 			return in, nil
 		}))
@@ -146,35 +199,53 @@ func (tgtOf[T]) build(mid, inv bool, add func(wf wfAPI, succ *compose.WorkflowNo
 	if err != nil {
 		return nil, err
 	}
+	box := func(out *T) reflect.Value {
+		rv := reflect.New(reflect.TypeOf((*T)(nil)).Elem()).Elem()
+		rv.Set(reflect.ValueOf(out).Elem())
+		return rv
+	}
+	drain := func(sr *schema.StreamReader[T]) ([]reflect.Value, error) {
+		defer sr.Close()
+		var outs []reflect.Value
+		for {
+			c, err := sr.Recv()
+			if errors.Is(err, io.EOF) {
+				return outs, nil
+			}
+			if err != nil {
+				return nil, err
+			}
+			outs = append(outs, box(&c))
+		}
+	}
 	return &runFns{
 		invoke: func(in Outer) (reflect.Value, error) {
 			out, err := r.Invoke(ctx, in)
 			if err != nil {
 				return reflect.Value{}, err
 			}
-			rv := reflect.New(reflect.TypeOf((*T)(nil)).Elem()).Elem()
-			rv.Set(reflect.ValueOf(&out).Elem())
-			return rv, nil
+			return box(&out), nil
 		},
 		stream: func(in Outer) ([]reflect.Value, error) {
 			sr, err := r.Stream(ctx, in)
 			if err != nil {
 				return nil, err
 			}
-			defer sr.Close()
-			var outs []reflect.Value
-			for {
-				c, err := sr.Recv()
-				if errors.Is(err, io.EOF) {
-					return outs, nil
-				}
-				if err != nil {
-					return nil, err
-				}
-				rv := reflect.New(reflect.TypeOf((*T)(nil)).Elem()).Elem()
-				rv.Set(reflect.ValueOf(&c).Elem())
-				outs = append(outs, rv)
+			return drain(sr)
+		},
+		collect: func(in Outer) (reflect.Value, error) {
+			out, err := r.Collect(ctx, schema.StreamReaderFromArray([]Outer{in}))
+			if err != nil {
+				return reflect.Value{}, err
 			}
+			return box(&out), nil
+		},
+		transform: func(in Outer) ([]reflect.Value, error) {
+			sr, err := r.Transform(ctx, schema.StreamReaderFromArray([]Outer{in}))
+			if err != nil {
+				return nil, err
+			}
+			return drain(sr)
 		},
 	}, nil
 }
@@ -284,6 +355,19 @@ type outcome struct {
 	StrVals []*V     `json:"stream_vals,omitempty"`
 	StrMsg  string   `json:"stream_msg,omitempty"`
 	SrcMod  []string `json:"source_modified,omitempty"`
+	// Collect on the Invoke runnable and Transform on the Stream runnable (the workflow's input as a one-chunk
+	// stream), rendered like outcome.key does: must be what Invoke / Stream gave
+	Collect   string `json:"collect,omitempty"`
+	ColMsg    string `json:"collect_msg,omitempty"`
+	ColVal    *V     `json:"collect_val,omitempty"`
+	Transform string `json:"transform,omitempty"`
+	// the second request on the same compiled runnables (cases with a Val2): "" = not run
+	Invoke2  string `json:"invoke2,omitempty"`
+	InvVal2  *V     `json:"invoke2_val,omitempty"`
+	InvMsg2  string `json:"invoke2_msg,omitempty"`
+	Stream2  string `json:"stream2,omitempty"`
+	StrVals2 []*V   `json:"stream2_vals,omitempty"`
+	StrMsg2  string `json:"stream2_msg,omitempty"`
 	// Stream with an ordinary (invokable) successor node: the concatenation of the converted chunks
 	Concat string `json:"concat,omitempty"` // "" (not run) | ok | err | panic | hang
 	ConVal *V     `json:"concat_val,omitempty"`
@@ -345,7 +429,9 @@ func execute(c *Case) *outcome {
 		panic("no target handle for " + c.T)
 	}
 	// fresh source values for every execution, and a pristine twin for the "source unmodified" oracle
-	type built struct{ inv, twin []reflect.Value }
+	// inv / twin: the values of the first request; inv2 / twin2: of the second (same runnable)
+	type built struct{ inv, twin, inv2, twin2 []reflect.Value }
+	cur := new(int) // the request being served
 	mk := func(streaming bool) ([]built, func(wf wfAPI, succ *compose.WorkflowNode)) {
 		bs := make([]built, len(c.Decls)+1)
 		for _, s := range c.Statics {
@@ -365,6 +451,10 @@ func execute(c *Case) *outcome {
 				bs[i].inv = append(bs[i].inv, build(v, st))
 				bs[i].twin = append(bs[i].twin, build(v, st))
 			}
+			if c.second() {
+				bs[i].inv2 = []reflect.Value{build(d.val2(), st)}
+				bs[i].twin2 = []reflect.Value{build(d.val2(), st)}
+			}
 		}
 		add := func(wf wfAPI, succ *compose.WorkflowNode) {
 			for i := range c.Decls {
@@ -375,7 +465,11 @@ func execute(c *Case) *outcome {
 				if c.Decls[i].FromStart {
 					continue
 				}
-				wf.AddLambdaNode(fmt.Sprintf("n%d", i), sh.lambda(bs[i].inv)).AddInput(compose.START)
+				reqs := [][]reflect.Value{bs[i].inv}
+				if c.second() {
+					reqs = append(reqs, bs[i].inv2)
+				}
+				wf.AddLambdaNode(fmt.Sprintf("n%d", i), sh.lambda(reqs, cur)).AddInput(compose.START)
 			}
 			for i := range c.Decls {
 				var fms []*compose.FieldMapping
@@ -413,6 +507,9 @@ func execute(c *Case) *outcome {
 	startVal := func(bs []built) Outer {
 		for i := range c.Decls {
 			if c.Decls[i].FromStart {
+				if *cur == 1 {
+					return bs[i].inv2[0].Interface().(Outer)
+				}
 				return bs[i].inv[0].Interface().(Outer)
 			}
 		}
@@ -428,6 +525,11 @@ func execute(c *Case) *outcome {
 					o.SrcMod = append(o.SrcMod, fmt.Sprintf("%s: decl %d value %d", what, i, j))
 				}
 			}
+			for j := range b.inv2 {
+				if b.inv2[j].IsValid() && !reflect.DeepEqual(b.inv2[j].Interface(), b.twin2[j].Interface()) {
+					o.SrcMod = append(o.SrcMod, fmt.Sprintf("%s: decl %d value of the second request", what, i))
+				}
+			}
 		}
 	}
 
@@ -435,7 +537,7 @@ func execute(c *Case) *outcome {
 	bsI, addI := mk(false)
 	var fns *runFns
 	var cerr error
-	if p, hung := withWatchdog(func() { fns, cerr = th.build(c.Mid, false, addI) }); p != nil || hung {
+	if p, hung := withWatchdog(func() { fns, cerr = th.build(c.Mid, false, c.MidGraph, addI) }); p != nil || hung {
 		o.Compile, o.CompMsg = "panic", firstLine(fmt.Sprint(p))
 		return o
 	}
@@ -460,12 +562,31 @@ func execute(c *Case) *outcome {
 			o.Invoke, o.InvMsg, o.InvVal = "garbage", "result with keys outside the case: "+o.InvVal.String(), nil
 		}
 	}
+	if c.second() && !hung {
+		// the second request, served by the same compiled runnable
+		*cur = 1
+		p, hung := withWatchdog(func() { rv, rerr = fns.invoke(startVal(bsI)) })
+		switch {
+		case hung:
+			o.Invoke2 = "hang"
+		case p != nil:
+			o.Invoke2, o.InvMsg2 = "panic", firstLine(fmt.Sprint(p))
+		case rerr != nil:
+			o.Invoke2, o.InvMsg2 = "err", firstLine(strings.ReplaceAll(rerr.Error(), "\n", " | "))
+		default:
+			o.Invoke2, o.InvVal2 = "ok", render(rv)
+			if !o.InvVal2.knownSyms() {
+				o.Invoke2, o.InvMsg2, o.InvVal2 = "garbage", "result with keys outside the case: "+o.InvVal2.String(), nil
+			}
+		}
+		*cur = 0
+	}
 	checkSrc(bsI, "invoke")
 
 	// --- Stream on a separately compiled workflow (sources stream their chunks)
 	bsS, addS := mk(true)
 	var fnsS *runFns
-	if p, hung := withWatchdog(func() { fnsS, cerr = th.build(c.Mid, false, addS) }); p != nil || hung || cerr != nil {
+	if p, hung := withWatchdog(func() { fnsS, cerr = th.build(c.Mid, false, c.MidGraph, addS) }); p != nil || hung || cerr != nil {
 		o.Stream, o.StrMsg = "panic", "second compile differs: "+firstLine(fmt.Sprint(p, cerr))
 		return o
 	}
@@ -491,13 +612,75 @@ func execute(c *Case) *outcome {
 			}
 		}
 	}
+	if !hung {
+		var cv reflect.Value
+		var cerr2 error
+		p, hung := withWatchdog(func() { cv, cerr2 = fnsS.collect(startVal(bsS)) })
+		switch {
+		case hung:
+			o.Collect = "hang"
+		case p != nil:
+			o.Collect = "panic"
+		case cerr2 != nil:
+			o.Collect, o.ColMsg = "err", firstLine(strings.ReplaceAll(cerr2.Error(), "\n", " | "))
+		default:
+			o.Collect, o.ColVal = "ok", render(cv)
+		}
+	}
+	if !hung {
+		var tvs []reflect.Value
+		var terr error
+		p, hung := withWatchdog(func() { tvs, terr = fnsS.transform(startVal(bsS)) })
+		switch {
+		case hung:
+			o.Transform = "hang"
+		case p != nil:
+			o.Transform = "panic"
+		case terr != nil:
+			o.Transform = "err"
+		default:
+			var vs []*V
+			for _, v := range tvs {
+				vs = append(vs, render(v))
+			}
+			o.Transform = "ok"
+			for _, v := range sortVs(vs) {
+				o.Transform += ";" + v.String()
+			}
+		}
+	}
+	if c.second() && !hung {
+		*cur = 1
+		p, hung := withWatchdog(func() { rvs, rerr = fnsS.stream(startVal(bsS)) })
+		switch {
+		case hung:
+			o.Stream2 = "hang"
+		case p != nil:
+			o.Stream2, o.StrMsg2 = "panic", firstLine(fmt.Sprint(p))
+		case rerr != nil:
+			o.Stream2, o.StrMsg2 = "err", firstLine(strings.ReplaceAll(rerr.Error(), "\n", " | "))
+		default:
+			o.Stream2 = "ok"
+			for _, v := range rvs {
+				o.StrVals2 = append(o.StrVals2, render(v))
+			}
+			o.StrVals2 = sortVs(o.StrVals2)
+			for _, v := range o.StrVals2 {
+				if !v.knownSyms() {
+					o.Stream2, o.StrMsg2, o.StrVals2 = "garbage", "chunk with keys outside the case: "+v.String(), nil
+					break
+				}
+			}
+		}
+		*cur = 0
+	}
 	checkSrc(bsS, "stream")
 
 	// --- Stream into an ordinary (invokable) successor: the engine concatenates the converted chunks
 	if c.Mid {
 		bsC, addC := mk(true)
 		var fnsC *runFns
-		if p, hung := withWatchdog(func() { fnsC, cerr = th.build(true, true, addC) }); p != nil || hung || cerr != nil {
+		if p, hung := withWatchdog(func() { fnsC, cerr = th.build(true, true, false, addC) }); p != nil || hung || cerr != nil {
 			o.Concat, o.ConMsg = "panic", "third compile differs: "+firstLine(fmt.Sprint(p, cerr))
 			return o
 		}
@@ -536,6 +719,18 @@ func (o *outcome) key() string {
 	b.WriteString("|" + o.Concat)
 	if o.ConVal != nil {
 		b.WriteString("=" + o.ConVal.String())
+	}
+	b.WriteString("|" + o.Collect + "|" + o.Transform)
+	if o.ColVal != nil {
+		b.WriteString("=" + o.ColVal.String())
+	}
+	b.WriteString("|" + o.Invoke2)
+	if o.InvVal2 != nil {
+		b.WriteString("=" + o.InvVal2.String())
+	}
+	b.WriteString("|" + o.Stream2)
+	for _, v := range o.StrVals2 {
+		b.WriteString(";" + v.String())
 	}
 	return b.String()
 }
